@@ -6,5 +6,9 @@ import (
 	"verif/harness/ev"
 )
 
-func schedulesForC09(t *testing.T, r *ev.Run) {}
-func awsPlaintexts(t *testing.T, r *ev.Run)   {}
+// schedulesForC09 runs the leak ledger over a sample of the duplicate-key schedules.
+func schedulesForC09(t *testing.T, r *ev.Run) {
+	exploreSchedules(t, r, "C09", func(c schedCell) bool { return c.nproc == 2 }, ev.Pick(60, 3000), false)
+}
+
+func awsPlaintexts(t *testing.T, r *ev.Run) {}
